@@ -1,10 +1,10 @@
 use std::io::Write;
 
-use krp_harness::{chain, dump, kernel, ops, run_ops_text};
+use krp_harness::{chain, dump, gen, grid, kernel, ops, run_ops_text};
 
 fn usage() -> ! {
     eprintln!(
-        "usage:\n  krp-harness run OPSFILE          (OPSFILE `-` = stdin)\n  krp-harness kernel NAME SEED COUNT   (NAME = deleg|undeleg|ddiv|nwr|swapinfo|drewards)\n  krp-harness kernel-eval NAME     (stdin: `ARGS` lines; prints `ARGS => RESULT` from the real code)\n  krp-harness roundtrip OPSFILE    (parse and re-print every operation)\n  krp-harness explain OPSFILE      (like run, but prints op lines and failure reasons; diagnostics only)\nenvironment: KRP_NO_CACHE=1 disables the (sound) memoisation of dump fragments"
+        "usage:\n  krp-harness run OPSFILE          (OPSFILE `-` = stdin)\n  krp-harness kernel NAME SEED COUNT   (NAME = deleg|undeleg|ddiv|nwr|swapinfo|drewards)\n  krp-harness gen PROFILE SEED NHIST LEN OPSFILE OBSFILE   (PROFILE = general|pricing|unbond|rewards|registry|token|config|pause|exit)\n  krp-harness grid OPSFILE OBSFILE   (authorisation grid)\n  krp-harness kernel-eval NAME     (stdin: `ARGS` lines; prints `ARGS => RESULT` from the real code)\n  krp-harness roundtrip OPSFILE    (parse and re-print every operation)\n  krp-harness explain OPSFILE      (like run, but prints op lines and failure reasons; diagnostics only)\nenvironment: KRP_NO_CACHE=1 disables the (sound) memoisation of dump fragments"
     );
     std::process::exit(2);
 }
@@ -23,6 +23,22 @@ fn read_input(path: &str) -> String {
             std::process::exit(2);
         })
     }
+}
+
+fn open_outputs(
+    ops: &str,
+    obs: &str,
+) -> (std::io::BufWriter<std::fs::File>, std::io::BufWriter<std::fs::File>) {
+    let open = |p: &str| {
+        std::io::BufWriter::with_capacity(
+            1 << 20,
+            std::fs::File::create(p).unwrap_or_else(|e| {
+                eprintln!("cannot create {}: {}", p, e);
+                std::process::exit(2);
+            }),
+        )
+    };
+    (open(ops), open(obs))
 }
 
 fn main() {
@@ -123,6 +139,49 @@ fn main() {
                     std::process::exit(2);
                 }
             }
+        }
+        "gen" => {
+            // gen PROFILE SEED NHIST LEN OPSFILE OBSFILE
+            if args.len() != 8 {
+                usage();
+            }
+            let seed: u64 = args[3].parse().unwrap_or_else(|_| usage());
+            let nhist: u64 = args[4].parse().unwrap_or_else(|_| usage());
+            let len: u64 = args[5].parse().unwrap_or_else(|_| usage());
+            let (fo, fb) = open_outputs(&args[6], &args[7]);
+            let mut em = gen::Emitter::new(fo, fb);
+            let t0 = std::time::Instant::now();
+            if let Err(e) = gen::generate(&mut em, &args[2], seed, nhist, len) {
+                eprintln!("krp-harness: {}", e);
+                std::process::exit(2);
+            }
+            let dt = t0.elapsed().as_secs_f64();
+            eprintln!(
+                "gen: {} ops in {:.2} s ({:.0} ops/s)",
+                em.stats.ops,
+                dt,
+                em.stats.ops as f64 / dt.max(1e-9)
+            );
+            writeln!(w, "{}", em.stats.to_json()).unwrap();
+        }
+        "grid" => {
+            if args.len() != 4 {
+                usage();
+            }
+            let (fo, fb) = open_outputs(&args[2], &args[3]);
+            let mut em = gen::Emitter::new(fo, fb);
+            let t0 = std::time::Instant::now();
+            let (cells, succeeded) = grid::generate(&mut em);
+            let dt = t0.elapsed().as_secs_f64();
+            eprintln!(
+                "grid: {} cells ({} succeeded), {} ops in {:.2} s ({:.0} ops/s)",
+                cells,
+                succeeded,
+                em.stats.ops,
+                dt,
+                em.stats.ops as f64 / dt.max(1e-9)
+            );
+            writeln!(w, "{}", em.stats.to_json()).unwrap();
         }
         "kernel-eval" => {
             // read `ARGS` lines (optionally `ARGS => anything`) on stdin, print `ARGS => RESULT`
